@@ -1305,19 +1305,26 @@ impl Prop for C17 {
             stats.count("probe.nan_propagated_to_result");
         }
 
-        // oracle 2: bounded work
+        // oracle 2: bounded work. The property promises "a bounded number of function evaluations" within "at
+        // most the configured number of iterations" without naming the constant, so the bound is generous:
+        // twice the per-iteration cost E of the documented scheme (3 scalar; n+2 finite-difference systems;
+        // 1 function + 1 user-Jacobian call) plus two evaluations outside the loop. Runaway schemes are two
+        // orders of magnitude above it; an off-by-one in the iteration count is the business of oracles 3/6.
         let (fmax, jmax) = if !e.system() {
-            (3 * k + 1, 0)
+            (6 * k + 2, 0)
         } else if e.has_jac() {
-            (k + 1, k)
+            (2 * k + 2, 2 * k + 1)
         } else {
-            ((n + 2) * k + 1, 0)
+            (2 * (n + 2) * k + 2, 0)
         };
         if k == 0 {
-            if s1.f_calls + s1.j_calls != 0 {
+            // no iteration may run: the payload is the guess, bit for bit; at most one evaluation (a residual
+            // check of the guess) is tolerated, and success may only be claimed for a guess that is a root
+            if s1.f_calls > 1 || s1.j_calls != 0 {
                 return violation("work-bound", &format!("{en}:work-bound"), format!("{}: max_iter=0 yet the function was evaluated {} time(s) (Jacobian {})", e.name(), s1.f_calls, s1.j_calls));
             }
-            if ok1 || !same_bits(&x1, &case.guess) {
+            let root_guess = dist_to_root(case, &case.guess).map(|d| d <= 2.0 * case.tol).unwrap_or(false);
+            if !same_bits(&x1, &case.guess) || (ok1 && !(root_guess && !faulted)) {
                 return violation("zero-budget", &format!("{en}:zero-budget"), format!("{}: max_iter=0 must report failure carrying the guess {:?}; got {}", e.name(), case.guess, fmt_res(&s1.result)));
             }
         }
@@ -1325,7 +1332,7 @@ impl Prop for C17 {
             return violation(
                 "work-bound",
                 &format!("{en}:work-bound"),
-                format!("{}: max_iter={k}, n={n}: {} function and {} Jacobian evaluations; at most {fmax} and {jmax} fit in {k} iterations of the scheme", e.name(), s1.f_calls, s1.j_calls),
+                format!("{}: max_iter={k}, n={n}: {} function and {} Jacobian evaluations; more than {fmax} and {jmax}, i.e. over twice what {k} iterations of the scheme cost", e.name(), s1.f_calls, s1.j_calls),
             );
         }
 
@@ -1587,7 +1594,7 @@ impl Prop for C17 {
         Describe {
             rule: "one case = (entry point among the six solve/solve_jacobian methods, configuration, dimension, tol, delta, max_iter, guess, scripted function, fault list). Entry points and configurations are cycled by run index (1/5 in-basin, 1/5 anywhere, 3/5 hostile); everything else is drawn. The scripted function is the simulated peer: polynomials with separated roots in product form, exp/sin equations, strictly diagonally dominant nonlinear systems (dimension 1..6, 8 in a few thorough runs), root-free / non-differentiable / constant scripts, with NaN/+-Inf/1e300 injected at a chosen evaluation index, at a chosen user-Jacobian evaluation, or everywhere inside a chosen region. Each case calls the real solver 2..5 times (replay, restart composition, one-step). Distinct = hash of every field of the case; all cases are non-trivial.".into(),
             assumptions: vec![
-                "work bound: f evaluations <= E*max_iter + 1 with E = 3 (scalar, central difference + residual), n+2 (systems with finite-difference Jacobian), 1 (+ max_iter user-Jacobian calls) for solve_jacobian; the +1 tolerates one residual check outside the loop; fewer always pass".into(),
+                "work bound: f evaluations <= 2*E*max_iter + 2 with E = 3 (scalar), n+2 (finite-difference systems), 1 (+ at most 2*max_iter+1 user-Jacobian calls); with max_iter = 0 at most one evaluation and the payload must be the guess. The property names no constant; runaway schemes are caught by the callback's own budget (100*(n+2)*(max_iter+1)) and silent loops by the watchdog".into(),
                 "restart composition: Err(x_k) with budget k implies solve(budget 1 from x_k) == solve(budget k+1 from the guess), bit for bit (NaN == NaN): holds for any memoryless iteration whose failure payload is its last iterate; not applied under evaluation-index-keyed faults (the environment is then not a function of x)".into(),
                 "one-step: with max_iter = 1 on an un-faulted smooth script the payload is within 1e-4 (1e-3 for delta=1e-6) of the analytic Newton step, skipped when |f'| < 1e-2 |f|".into(),
                 "in-basin radius: polynomials |e| <= d/(4 deg); exp/sin by the f''/f' bound; systems by a Newton-Kantorovich radius with safety factor 4 (DESIGN.md 4.3). Configurations A/B are seeded numerical sampling; simulation adds nothing there beyond the shared harness".into(),
